@@ -174,7 +174,7 @@ func (t *Tester) run(testFile string) (*TestResult, error) {
 					}
 
 					start := time.Now()
-					err := i.ProcessTestSubroutine(s, st)
+					err := processTestSubroutine(i, s, st)
 					cases = append(cases, &TestCase{
 						Name:  metadata.Name,
 						Error: errors.Cause(err),
@@ -205,6 +205,17 @@ func (t *Tester) run(testFile string) (*TestResult, error) {
 			Lexer:    l,
 		}, nil
 	}
+}
+
+// processTestSubroutine runs a test subroutine. A crash inside the test (e.g. a testing function which
+// receives an argument of unexpected type) is reported as the error of the test, not of the whole process
+func processTestSubroutine(i *interpreter.Interpreter, s context.Scope, sub *ast.SubroutineDeclaration) (err error) {
+	defer func() {
+		if r := recover(); r != nil {
+			err = errors.Errorf("test subroutine %s crashed: %v", sub.Name.Value, r)
+		}
+	}()
+	return i.ProcessTestSubroutine(s, sub)
 }
 
 func (t *Tester) runDescribedTests(
@@ -270,7 +281,7 @@ func (t *Tester) runDescribedTests(
 			}
 
 			start := time.Now()
-			err := i.ProcessTestSubroutine(s, sub)
+			err := processTestSubroutine(i, s, sub)
 			cases = append(cases, &TestCase{
 				Name:  metadata.Name,
 				Group: d.Name.String(),
